@@ -210,7 +210,11 @@ impl<'a> DocSymEmitter<'a> {
                         .unwrap()
                         .evaluate_expression_as_string(id, false)
                     {
-                        self.emit_document_symbols(&b.inner, Some(&Identifier::new(symbol_id)))
+                        // (a segment name is any string; an identifier cannot hold a period)
+                        self.emit_document_symbols(
+                            &b.inner,
+                            Some(&Identifier::new(symbol_id.replace('.', "?"))),
+                        )
                     } else {
                         vec![]
                     }
